@@ -245,6 +245,18 @@ func main() {
 			var c Case
 			_ = report.Recase(raw, &c)
 			var st stats
+			if c.Family == "files" {
+				for _, fp := range fileProgs {
+					if fp.name == c.Kind {
+						fails, obs := runFileProg(fp, &st)
+						fmt.Printf("file-import program %s\n%s\nfiles: %v\n  observed: %s\n", fp.name, fp.main, fp.files, obs)
+						for _, f := range fails {
+							fmt.Printf("  FAIL %s: %s\n", f.sig, f.what)
+						}
+					}
+				}
+				continue
+			}
 			fails, obs := runCase(c, &st)
 			fmt.Printf("case family=%s choices=%v\n%s\n  observed: %s\n", c.Family, c.Choices, tg.Print(program(c)).AllText, obs)
 			for _, f := range fails {
@@ -317,6 +329,16 @@ func main() {
 			r.Violation(fl.sig, fl.what, c)
 		}
 	})
+	for _, fp := range fileProgs {
+		fails, obs := runFileProg(fp, &st)
+		atomic.AddInt64(&evals, 1)
+		distinct.Add("files/" + fp.name)
+		r.Outcome("files/" + obs)
+		r.Count("programs/files", 1)
+		for _, fl := range fails {
+			r.Violation(fl.sig, fl.what, Case{Family: "files", Kind: fp.name})
+		}
+	}
 	r.Set("constants_seen", st.consts)
 	r.Set("duplicate_constants_removed", st.dupRemoved)
 	r.Set("abstract_states_checked_on_transformed_bytecode", st.fnStates)
